@@ -55,7 +55,7 @@ theorem same_updCell (st : St) (c : ObjId) (f : CellSt → CellSt)
 
 theorem same_setLinked (st : St) (k : Kind) (o : ObjId) : Same st (st.setLinked k o) := by
   cases k
-  · exact same_updCell st o _ (fun _ => ⟨rfl, rfl, rfl⟩)
+  · exact ⟨rfl, fun x => linkCell_cellOf st o x⟩
   all_goals exact Same.refl _
 
 theorem same_setMembers (st : St) (k : Kind) (l : List ObjId) : Same st (st.setMembers k l) := by
@@ -71,6 +71,13 @@ theorem same_foldl {α : Type} (f : St → α → St) (hf : ∀ s x, Same s (f s
   | nil => intro st; exact Same.refl st
   | cons a t ih => intro st; exact (hf st a).trans (ih (f st a))
 
+theorem same_setMaterial (st : St) (c : ObjId) (m : Option ObjId) : Same st (setMaterial st c m).1 :=
+  (same_updCell st c (fun cs => { cs with mat := m }) (fun _ => ⟨rfl, rfl, rfl⟩)).trans ⟨rfl, fun _ => ⟨rfl, rfl, rfl⟩⟩
+
+theorem same_setUniverse (st : St) (c u : ObjId) : Same st (setUniverse st c u).1 :=
+  (same_updCell st c (fun cs => { cs with univ := some u }) (fun _ => ⟨rfl, rfl, rfl⟩)).trans
+    ⟨rfl, fun _ => ⟨rfl, rfl, rfl⟩⟩
+
 /-- the edits that do not touch any geometry or container -/
 theorem same_step (st : St) (op : Op)
     (h : match op with
@@ -78,13 +85,12 @@ theorem same_step (st : St) (op : Op)
       | .setMaterials .. | .setCells .. | .addCellChildren | .reupdate => True
       | _ => False) : Same st (step st op).1 := by
   cases op with
-  | setMaterial c m => exact same_updCell st c _ (fun _ => ⟨rfl, rfl, rfl⟩)
-  | setUniverse c u => exact same_updCell st c _ (fun _ => ⟨rfl, rfl, rfl⟩)
+  | setMaterial c m => exact same_setMaterial st c m
+  | setUniverse c u => exact same_setUniverse st c u
   | claim u cs =>
     simp only [step, claim]
     split
-    · exact same_foldl (fun s c => (setUniverse s c u).1)
-        (fun s x => same_updCell s x _ (fun _ => ⟨rfl, rfl, rfl⟩)) cs st
+    · exact same_foldl (fun s c => (setUniverse s c u).1) (fun s x => same_setUniverse s x u) cs st
     · exact Same.refl st
   | setFill c u => exact same_updCell st c _ (fun _ => ⟨rfl, rfl, rfl⟩)
   | setNumber k o n =>
@@ -443,19 +449,27 @@ theorem C16_reverse_complement_geometry (st : St) (c d : ObjId) (g : HS) (h : In
   rw [C16_reverse_complement]
   exact ⟨hl, hd, hne, (h d g hg).2.2 c hc⟩
 
-/-- history used by the refutations: a cell from scratch is appended to the problem, then gets a material
-    and a universe that were never registered with the problem -/
-def orphanOps : List Op := [.append .cell 0, .setMaterial 0 (some 1), .setUniverse 0 3]
+/-- history used by the refutation: a cell from scratch complements another cell from scratch and is then
+    appended to the problem; the complemented cell never is -/
+def orphanOps : List Op := [.setGeometry 1 (.compl (.leaf true 0 true none) none), .append .cell 1]
 
 /-- **C16_reverse_refuted** — "exactly the cells whose forward links point at that object" fails for a
-    target that is not linked to the problem: the generator searches through `self._problem`
-    (known finding C16-F2a). -/
+    target that is not linked to the problem: the generators search through `self._problem`.  Since the repair
+    fccf732 a material / universe / surface a linked cell points at always is linked; what is left is a
+    *complemented cell* that is not itself part of the problem (known finding C16-F2a). -/
 theorem C16_reverse_refuted :
-    ¬ (∀ (st : St) (m d : ObjId), d ∈ st.cells → (st.cellOf d).mat = some m → d ∈ materialCells st m) := by
+    ¬ (∀ (st : St) (c d : ObjId), d ∈ st.cells → d ≠ c → c ∈ (st.cellOf d).comps → d ∈ cellsComplementing st c) := by
   intro hall
-  have := hall (run (demo false) orphanOps) 1 0 (by decide) (by decide)
+  have := hall (run (demo false) orphanOps) 0 1 (by decide) (by decide) (by decide)
   revert this
   decide
+
+/-- **C16_reverse_setMaterial** — the repaired setter: assigning a material to a cell that is linked to the
+    problem links the material, so its reverse look-up yields the cell at once. -/
+theorem C16_reverse_setMaterial (st : St) (c m : ObjId) (hl : (st.cellOf c).link = true) (hc : c ∈ st.cells) :
+    c ∈ materialCells (setMaterial st c (some m)).1 m := by
+  rw [C16_reverse_material]
+  refine ⟨by simp [setMaterial, hl], hc, m, by simp [setMaterial], by simp [matEq]⟩
 
 /-- **C16_reverse_partial** — for a linked target the reverse look-up does yield every cell of the problem
     whose forward link points at it. -/
@@ -500,21 +514,27 @@ theorem C16_universe_refuted :
   rw [hnone] at hu
   cases hu
 
-/-- assigning a linked universe to every cell of the problem (e.g. `claim` by a member of
-    `problem.universes`) establishes `UnivOK` for those cells: the step that repairs the refuting history -/
-theorem C16_universe_setUniverse (st : St) (c u : ObjId) (h : UnivOK st) (hl : st.ulink u = true) :
-    UnivOK (setUniverse st c u).1 := by
+/-- assigning a universe to a cell keeps `UnivOK` when the universe is linked or — repaired setter — the cell
+    is (the universe is linked by the assignment): `claim` on the cells of a problem can no longer break it -/
+theorem C16_universe_setUniverse (st : St) (c u : ObjId) (h : UnivOK st)
+    (hl : st.ulink u = true ∨ (st.cellOf c).link = true) : UnivOK (setUniverse st c u).1 := by
   intro d hd
   simp only [setUniverse] at hd ⊢
   by_cases hdc : d = c
   · subst hdc
-    exact ⟨u, by simp, hl⟩
+    refine ⟨u, by simp, ?_⟩
+    rcases hl with hl | hl <;> simp [hl]
   · obtain ⟨u', hu', hl'⟩ := h d hd
-    exact ⟨u', by simpa [hdc] using hu', hl'⟩
+    refine ⟨u', by simpa [hdc] using hu', ?_⟩
+    show (if ((st.cellOf c).link && u == u') = true then true else st.ulink u') = true
+    split
+    · rfl
+    · exact hl'
 
 example : UnivOK (run (demo false) [.append .universe 3, .append .cell 0, .setUniverse 0 3]) := by
   intro d hd
-  have : d = 0 := by simpa [run, step, collAppend, St.members, St.setMembers, St.setLinked, demo, St.blank, setUniverse, St.updCell] using hd
+  have hcells : (run (demo false) [.append .universe 3, .append .cell 0, .setUniverse 0 3]).cells = [0] := by decide
+  have : d = 0 := by rw [hcells] at hd; simpa using hd
   rw [this]
   exact ⟨3, by decide, by decide⟩
 
@@ -529,12 +549,15 @@ theorem InvLinked.ext {st st' : St} (h : InvLinked st) (e : LinkExt st st') : In
   exact e.linked k o (h k o ho)
 
 theorem setLinked_linked (st : St) (k : Kind) (o : ObjId) : (st.setLinked k o).linked k o = true := by
-  cases k <;> simp [St.setLinked, St.linked, upd]
+  cases k <;> simp [St.setLinked, St.linkCell, St.linked, upd]
 
 theorem setLinked_mono (st : St) (k k' : Kind) (o x : ObjId) (h : st.linked k' x = true) :
     (st.setLinked k o).linked k' x = true := by
-  cases k <;> cases k' <;> simp only [St.setLinked, St.linked, updCell_cellOf, upd] at h ⊢ <;>
-    first | exact h | (split <;> first | rfl | exact h | (subst_vars; simp_all))
+  cases k
+  · exact (linkCell_ext st o).linked k' x h
+  all_goals
+    cases k' <;> simp only [St.setLinked, St.linked, upd] at h ⊢ <;>
+      first | exact h | (split <;> first | rfl | exact h)
 
 theorem setLinked_members (st : St) (k k' : Kind) (o : ObjId) : (st.setLinked k o).members k' = st.members k' := by
   cases k <;> cases k' <;> rfl
@@ -587,6 +610,32 @@ theorem mem_sortByNum (num : ObjId → Int) (x : ObjId) : ∀ l, x ∈ sortByNum
     have : sortByNum num (a :: t) = insertByNum num a (sortByNum num t) := rfl
     rw [this, mem_insertByNum, ih]
     simp
+
+theorem setMaterial_linkExt (st : St) (c : ObjId) (m : Option ObjId) : LinkExt st (setMaterial st c m).1 := by
+  refine (linkExt_updCell st c (fun cs => { cs with mat := m }) (fun x => x)).trans
+    ⟨fun k => by cases k <;> rfl, fun k o h => ?_⟩
+  cases k
+  · exact h
+  · exact h
+  · show (if ((st.cellOf c).link && m == some o) = true then true else st.mlink o) = true
+    split
+    · rfl
+    · exact h
+  · exact h
+  · exact h
+
+theorem setUniverse_linkExt (st : St) (c u : ObjId) : LinkExt st (setUniverse st c u).1 := by
+  refine (linkExt_updCell st c (fun cs => { cs with univ := some u }) (fun x => x)).trans
+    ⟨fun k => by cases k <;> rfl, fun k o h => ?_⟩
+  cases k
+  · exact h
+  · exact h
+  · exact h
+  · show (if ((st.cellOf c).link && u == o) = true then true else st.ulink o) = true
+    split
+    · rfl
+    · exact h
+  · exact h
 
 theorem setGeometry_linkExt (st : St) (c : ObjId) (g : HS) : LinkExt st (setGeometry st c g).1 := by
   simp only [setGeometry]
@@ -688,13 +737,13 @@ theorem C16_linked_step (st : St) (op : Op) (h : InvLinked st) : InvLinked (step
           | some err => (try dsimp only at *); exact h.ext this
           | none => (try dsimp only at *); exact h.ext (this.trans (linkExt_updCell st1 c _ (fun x => x)))
       · exact h
-  | setMaterial c m => simp only [step, setMaterial]; exact h.ext (linkExt_updCell st c _ (fun x => x))
-  | setUniverse c u => simp only [step, setUniverse]; exact h.ext (linkExt_updCell st c _ (fun x => x))
+  | setMaterial c m => exact h.ext (setMaterial_linkExt st c m)
+  | setUniverse c u => exact h.ext (setUniverse_linkExt st c u)
   | claim u cs =>
     simp only [step, claim]
     split
     · (try dsimp only at *); exact h.ext (linkExt_foldl (fun s c => (setUniverse s c u).1)
-        (fun s x => by simp only [setUniverse]; exact linkExt_updCell s x _ (fun y => y)) cs st)
+        (fun s x => setUniverse_linkExt s x u) cs st)
     · exact h
   | setFill c u => simp only [step, setFill]; exact h.ext (linkExt_updCell st c _ (fun x => x))
   | setNumber k o n =>
